@@ -201,7 +201,7 @@ class C06(Check):
                         c = emit("".join(t))
                         if c:
                             yield c
-                nrand = 30 if tier == "quick" else 300
+                nrand = 20 if tier == "quick" else 300
                 for _ in range(nrand):
                     toks = list(tokenize(rng.choice(bases)))
                     for _e in range(rng.randrange(2, 5)):
@@ -216,7 +216,7 @@ class C06(Check):
                     c = emit("".join(toks))
                     if c:
                         yield c
-                for _ in range(20 if tier == "quick" else 200):
+                for _ in range(10 if tier == "quick" else 200):
                     n = rng.randrange(1, 14)
                     u = "".join(rng.choice(ALPHABET) if rng.random() < 0.8 else
                                 rng.choice(["%%%02x" % rng.randrange(256), chr(rng.randrange(256)), "%c3%a9", "%e2%82%ac",
